@@ -38,6 +38,57 @@ PROPS = {
     ),
 }
 
+# ---- properties served by the S-ctl stream (real PfcpServer over loopback + reference data plane) ----
+def _ctl(k, profile, cases=24, events=40, tcases=250, tevents=60, extra=()):
+    base = 32 + 12 * k
+    return dict(name="ctl", args=["net=%d" % base, "profile=" + profile, "cases=%d" % cases, "events=%d" % events],
+                thorough_args=["cases=%d" % tcases, "events=%d" % tevents], shards=4, shards_thorough=12,
+                seed_per_shard=True, timeout=600, timeout_thorough=3000)
+
+_CTL_TB = ["model Model/Core.lean of internal/pfcp (handlers, Sess methods, tables, transactions), hand-written, "
+           "tied by the S-ctl differential stream: real PfcpServer over loopback UDP in lock-step, every driver call, datagram and table dump compared",
+           "reference data plane (mock forwarder.Driver) and simulated SMFs in /verif/harness; go-pfcp as encoder/decoder of the harness"]
+_CTL_ASSUME = ["single event loop (handlers run sequentially)", "map iteration order and driver answers are environment inputs (any order, any answer stream)",
+               "timers are events (real timers set to 1 h)", "fewer than 2^64 sessions"]
+
+PROPS["C04"] = dict(
+    module="UpfVerif.Props.C04",
+    streams=[dict(name="table"), _ctl(0, "nodes")],
+    rule="table stream: random op sequences new/lookup/delete on the real LocalNode with SEIDs of every class (0, live, released, beyond, 2^32, "
+         ">= 2^63, 2^64-1); ctl stream profile 'nodes': histories over 3 peers with establishment, deletion, re-association, SEID-0 responses; "
+         "distinct = distinct input lines",
+    trusted_base=_CTL_TB, assumptions=_CTL_ASSUME,
+    level_text="Kernel-checked (Props/C04.lean): TableWF invariant of LocalNode{sess,free}; lookup exact for all 2^64 SEIDs (hit ⇒ the session carrying that SEID; "
+               "miss ⇔ zero / beyond / released); allocation returns a fresh non-zero SEID and frames every other entry; release frees exactly one entry; "
+               "the invariant holds in every reachable table (induction over all op sequences). Tie: direct table stream on the real LocalNode + S-ctl histories; "
+               "the abstract map is also evaluated against the implementation's answers.",
+    level_note="Trusted: Lean kernel; model of node.go:612-690 (checked against the code each run); handlers' use of the table is covered by the S-ctl "
+               "correspondence and predicates, the handler-level 'no side effect on a miss' theorem is stated over Core.step in Props/C08.",
+)
+PROPS["C06"] = dict(
+    module="UpfVerif.Props.C06",
+    streams=[dict(name="rxret"), _ctl(1, "trans")],
+    rule="rxret: retention window for all 256 maxRetrans values x 11 timeouts; ctl profile 'trans': duplicates, same sequence number from other peers, "
+         "different request under an old key, rx expiries at random points, over 3 peers",
+    trusted_base=_CTL_TB, assumptions=_CTL_ASSUME + ["RetransTimeout x 256 fits int64"],
+    level_text="Kernel-checked (Props/C06.lean) over Core.step: a request hitting a receive transaction is never dispatched (state unchanged, no driver call, output = "
+               "cached response or nothing); keys differing in address or sequence never alias; expiry releases the entry; retention = T x (N+1) for all N in 0..255. "
+               "Tie: S-ctl 'trans' histories + exhaustive retention sweep on the real NewRxTransaction.",
+    level_note="Trusted: Lean kernel; model of the loop body and transaction.go (checked against the code each run). Real timers are replaced by injected expiry events; "
+               "'byte-identical' is modelled as 'the cached message' and checked on the wire by the harness (identical rendering of the replayed datagram).",
+)
+PROPS["C09"] = dict(
+    module="UpfVerif.Props.C09",
+    streams=[_ctl(2, "trans")],
+    rule="ctl profile 'trans' with the request counter positioned at 0, 2^24-2, 2^24-1, 2^24, 2^24+1, 2^32-2, 2^32-1, random; retry counts 0..3; "
+         "matching / wrong-peer / wrong-sequence / duplicate / other-type responses; tx expiries at random points",
+    trusted_base=_CTL_TB, assumptions=_CTL_ASSUME,
+    level_text="Kernel-checked (Props/C09.lean) over Core.step/sendReq for every 32-bit counter value: wire sequence = low 24 bits = transaction key, so the response "
+               "carrying the request's sequence number always matches; requests < 2^24 apart have distinct sequence numbers; expiry retransmits the identical message "
+               "while count < N, then abandons; at most 1+N transmissions; matching response releases; unmatched responses and stale expiries change nothing. Tie: S-ctl.",
+    level_note="Trusted: Lean kernel; model of pfcp.go:273-283,153-175 and transaction.go:57-109 (checked against the code each run); timers are injected events.",
+)
+
 # properties not claimed yet (kept current; every property has a planned executable model, see DESIGN.md)
 NOT_APPLICABLE = {}
 for _i in range(1, 21):
